@@ -54,7 +54,14 @@ func lifetimeCase(e *ev.Env, w *witnesses, c *ev.Case, fixed *lifeFixed) {
 			case 2:
 				sc.Reqs = append(sc.Reqs, keyless(gen.Pick(r, []string{"POST", "GET"})))
 			default:
-				sc.Reqs = append(sc.Reqs, safeKeyed(gen.Pick(r, []string{"GET", "OPTIONS"})))
+				switch r.Intn(4) {
+				case 0:
+					sc.Reqs = append(sc.Reqs, keyedReq(gen.Pick(r, []string{"GET", "OPTIONS", "HEAD"}), gen.Pick(r, malformedKeys)))
+				case 1:
+					sc.Reqs = append(sc.Reqs, reqSpec{Method: "POST", Key: gen.Pick(r, append([]string{keyPool[0]}, malformedKeys...)), Skip: true})
+				default:
+					sc.Reqs = append(sc.Reqs, safeKeyed(gen.Pick(r, []string{"GET", "OPTIONS"})))
+				}
 			}
 			menu := []time.Duration{0, time.Second, eff / 2, eff - time.Second, eff - time.Second, eff + time.Second, eff + time.Second, 2 * eff}
 			advs = append(advs, gen.Pick(r, menu).Truncate(time.Second))
@@ -89,11 +96,11 @@ func lifetimeCase(e *ev.Env, w *witnesses, c *ev.Case, fixed *lifeFixed) {
 				trace = append(trace, fmt.Sprintf("+%v %s %s", advs[i], rq.Method, rq.class()))
 				switch {
 				case len(rq.Entries) != 1:
-					add(rq.class()+"-affected|executions", fmt.Sprintf("request %d (%s) entered the handler %d times", i, rq.class(), len(rq.Entries)))
+					add(unaffectedSig(rq.reqSpec, sc)+"|executions", fmt.Sprintf("request %d (%s) entered the handler %d times", i, rq.class(), len(rq.Entries)))
 				case rq.Errored:
-					add(rq.class()+"-affected|error", fmt.Sprintf("request %d (%s) answered with error %s", i, rq.class(), rq.ErrMsg))
+					add(unaffectedSig(rq.reqSpec, sc)+"|error", fmt.Sprintf("request %d (%s) answered with error %s", i, rq.class(), rq.ErrMsg))
 				default:
-					r.checkOwn(rq, r.execs[rq.Entries[0]], rq.class()+"-affected", add)
+					r.checkOwn(rq, r.execs[rq.Entries[0]], unaffectedSig(rq.reqSpec, sc), add)
 				}
 				continue
 			}
